@@ -116,6 +116,45 @@ func main() {
 			}
 		}
 	})
+	// protocol v2 writes element lengths as unsigned shorts: an element, key or value of 65535 bytes must round-trip,
+	// one of 65536 bytes cannot be expressed and must be refused - never accepted and written with a wrapped length
+	for _, n := range []int{65535, 65536} {
+		long := bytes.Repeat([]byte{0xAB}, n)
+		for _, lc := range []struct {
+			dt  datatype.DataType
+			src interface{}
+			mk  func() interface{}
+		}{
+			{datatype.NewList(datatype.Blob), [][]byte{{1}, long}, func() interface{} { return &[][]byte{} }},
+			{datatype.NewMap(datatype.Int, datatype.Blob), map[int32][]byte{7: long}, func() interface{} { return &map[int32][]byte{} }},
+			{datatype.NewMap(datatype.Varchar, datatype.Int), map[string]int32{string(long): 7}, func() interface{} { return &map[string]int32{} }},
+		} {
+			codec, err := datacodec.NewCodec(lc.dt)
+			if err != nil {
+				continue
+			}
+			atomic.AddInt64(&evals, 1)
+			desc := fmt.Sprintf("%v (v2) with an element of %d bytes", lc.dt, n)
+			enc, err, pv, _ := cql.Encode(codec, lc.src, gen.V2)
+			if pv != nil {
+				c.Violation(map[string]string{"kind": "encode-panic", "type": lc.dt.Code().String(), "rep": "long-element"}, fmt.Sprintf("%s: Encode panics: %v", desc, pv), desc)
+				continue
+			}
+			if err != nil {
+				if n <= 65535 {
+					c.Violation(map[string]string{"kind": "encode-error", "type": lc.dt.Code().String(), "rep": "long-element"}, fmt.Sprintf("%s: refused although the format can express it: %v", desc, err), desc)
+				}
+				continue
+			}
+			d := lc.mk()
+			_, derr, pv, _ := cql.Decode(codec, enc, d, gen.V2)
+			if pv != nil || derr != nil || !reflect.DeepEqual(reflect.ValueOf(d).Elem().Interface(), lc.src) {
+				c.Violation(map[string]string{"kind": "roundtrip-mismatch", "type": lc.dt.Code().String(), "rep": "long-element"}, fmt.Sprintf("%s: Encode accepted the value (%d bytes), decoding them gives err=%v panic=%v equal=false", desc, len(enc), derr, pv), desc)
+				continue
+			}
+			atomic.AddInt64(&validated, 1)
+		}
+	}
 	c.Sample(map[string]interface{}{"type": "list<int>", "mode": "ptr", "value": "L[I1,NULL,I0]", "go": "[]*int32"})
 	c.Sample(map[string]interface{}{"type": "varint", "rep": "*big.Int", "value": "I-129"})
 	c.Set("states", distinct+compositeCases)
